@@ -48,7 +48,18 @@ func (s *zzTxSuite) Decrypt(h recordlayer.Header, in []byte) ([]byte, error) { r
 func (s *zzTxSuite) Encrypt(pkt *recordlayer.RecordLayer, raw []byte) ([]byte, error) {
 	s.inputs = append(s.inputs, raw)
 	s.epochs = append(s.epochs, pkt.Header.Epoch)
-	out := zzsymBytes("ct", len(raw)+8)
+	var out []byte
+	if len(raw) <= 4096 {
+		out = zzsymBytes("ct", len(raw)+8)
+	} else {
+		// a large record: fixed filler that no plaintext contains, arbitrary bytes at both ends
+		out = make([]byte, len(raw)+8)
+		for i := range out {
+			out[i] = 0xc7
+		}
+		copy(out, zzsymBytes("ct_head", 64))
+		copy(out[len(out)-64:], zzsymBytes("ct_tail", 64))
+	}
 	s.outputs = append(s.outputs, out)
 	return out, nil
 }
@@ -134,6 +145,38 @@ func zzTxAppDataOnlyCiphertext() {
 	// the cipher received the payload (sanity: it is inside the plaintext record given to Encrypt)
 	in := suite.inputs[0]
 	zzsymAssert(len(in) >= len(payload), "cipher_got_record")
+}
+
+// The same for payloads around the two-byte record length: 65535, 65536 and 131072 bytes (fixed filler, arbitrary
+// first and last byte), with and without a connection ID - sizes a PacketConn over a stream-like or jumbo transport
+// can carry, at which a length field that wraps to 0 must not be mistaken for "nothing to encrypt": whatever leaves is
+// exactly the cipher's output.
+//
+//symgo:entry covers=large_plain,large_cidwrap
+func zzTxLargeAppDataOnlyCiphertext() {
+	suite, nw := &zzTxSuite{}, &zzTxNet{}
+	c := zzTxConn(suite, nw)
+	common := dtlsstate.CommonState(c.state)
+	common.SetLocalEpoch(1)
+	if zzsymChoice("cid", 2) == 1 {
+		common.RemoteConnectionID = zzsymBytes("rcid", 2)
+		zzsymCover("large_cidwrap")
+	} else {
+		zzsymCover("large_plain")
+	}
+	n := []int{65535, 65536, 131072}[zzsymChoice("payload_len", 3)]
+	payload := make([]byte, n)
+	payload[0], payload[n-1] = zzsymU8("pay_byte"), zzsymU8("pay_byte")
+	pkt := c.newApplicationDataPacket(payload)
+	err := c.writeApplicationData(context.Background(), []*dtlsflight.Packet{pkt})
+	if err != nil {
+		zzsymAssert(len(nw.written) == 0, "refused_large_write_sends_nothing")
+		return
+	}
+	zzsymAssert(len(nw.written) == 1 && len(suite.outputs) == 1, "large_one_encrypt_call_one_datagram")
+	zzsymAssert(len(nw.written[0]) == len(suite.outputs[0]), "large_datagram_is_exactly_cipher_output")
+	w, o := nw.written[0], suite.outputs[0]
+	zzsymAssert(zzsymEqBytes(w[:64], o[:64]) && zzsymEqBytes(w[len(w)-64:], o[len(o)-64:]), "large_datagram_is_exactly_cipher_output")
 }
 
 // Alerts: notify() encrypts iff the handshake is established; an unencrypted alert (handshake not complete) carries
